@@ -170,7 +170,7 @@ class TrainerWorld(World):
         tiny = prop == "C08" and trainer in ("STDP", "MSTDP") and rc.random() < 0.2
         if tiny:
             cfg.update(ckind="dense", inshape=[1], outshape=[1], B=1, neuron="script", tiny=rc.randrange(256))
-        pooled = (not tiny) and trainer in ("STDP", "MSTDP", "TripletSTDP", "MSTDPET", "KernelSTDP") and rc.random() < 0.2
+        pooled = (not tiny) and trainer in ("STDP", "MSTDP", "TripletSTDP", "MSTDPET", "KernelSTDP", "DelayAdjustedSTDP", "DelayAdjustedMSTDP", "DelayAdjustedKernelSTDP") and rc.random() < 0.2
         if pooled:
             # one trainer, two cells sharing the post-synaptic neuron group, per-cell hyper-parameter overrides
             cfg.update(ckind="dense", inshape=rc.choice([[2], [3]]), outshape=rc.choice([[1], [2]]), neuron="script", override=True, pooled=True)
